@@ -13,7 +13,7 @@ CfgOf(j) ==
             LET ns == RangeOf(r.wf.nodes)
                 es == RangeOf(r.wf.edges)
             IN [ est |-> r.est, dur |-> r.dur, demand |-> r.demand, ing |-> r.ing,
-                 rate |-> r.rate,
+                 rate |-> r.rate, torder |-> r.torder,
                  nodes |-> {n.k : n \in ns},
                  comp |-> [k \in {n.k : n \in ns} |-> (CHOOSE n \in ns : n.k = k).comp],
                  data |-> [k \in {n.k : n \in ns} |-> (CHOOSE n \in ns : n.k = k).data],
@@ -64,7 +64,7 @@ Abs(c) ==
                       planned |-> r.planned, remaining |-> RangeOf(r.remaining),
                       planAst |-> r.planAst ]],
       tel |-> [use |-> c.tel.use, flag |-> c.tel.flag],
-      sch |-> [ queue |-> RangeOf(c.sch.queue), prov |-> c.sch.prov,
+      sch |-> [ queue |-> RangeOf(c.sch.queue), prov |-> c.sch.prov, pend |-> c.sch.pend,
                 status |-> c.sch.status, doff |-> c.sch.doff ],
       buf |-> [ hotFree |-> c.buf.hotFree, coldFree |-> c.buf.coldFree,
                 hotStored |-> c.buf.hotStored, hotSched |-> RangeOf(c.buf.hotSched),
